@@ -30,14 +30,18 @@ class _Base:
     def add(self, ev, auth_token=None):
         """submit through the real add_event; returns dict(ok, reason, exc)"""
         n0 = len(self.broadcasts)
-        try:
-            event, changed = self.run(self.storage.add_event(dict(ev), auth_token=auth_token))
-            res = {"ok": bool(changed), "reason": "" if changed else "duplicate", "exc": None}
-        except Exception as e:
-            res = {"ok": False, "reason": str(e), "exc": type(e).__name__}
+        res = self.submit(ev, auth_token=auth_token)
         self.quiesce()
         res["broadcast"] = len(self.broadcasts) - n0
         return res
+
+    def submit(self, ev, auth_token=None):
+        """the real add_event alone: on LMDB the event is acknowledged and queued for the writer, which has not run yet"""
+        try:
+            event, changed = self.run(self.storage.add_event(dict(ev), auth_token=auth_token))
+            return {"ok": bool(changed), "reason": "" if changed else "duplicate", "exc": None}
+        except Exception as e:
+            return {"ok": False, "reason": str(e), "exc": type(e).__name__}
 
     def quiesce(self):
         pass
@@ -55,6 +59,11 @@ class _Base:
                 out.append(ev)
             return out
         return self.run(go())
+
+
+class WriterDied(Exception):
+    """an exception escaped the real WriterThread.run(): in the relay the writer thread is dead from here on (every later
+    event is acknowledged and never written)"""
 
 
 class SQLStore(_Base):
@@ -144,7 +153,10 @@ class KVStore(_Base):
         try:
             self.writer.queue.put(None)
             self.writer.running = True
-            self.writer.run()
+            try:
+                self.writer.run()
+            except Exception as ex:
+                raise WriterDied("%s: %s" % (type(ex).__name__, ex)) from ex
         finally:
             logging.Logger.exception = orig
 
